@@ -10,9 +10,7 @@ from modelspec import build_model
 from extract import result_fields
 
 
-def regenerate(ctx):
-    result_fields.regenerate(common.REPO, common.LEAN)
-    return True
+USES_GENERATED = True     # Properties/C07.lean states theorems about Generated/ResultFields.lean
 
 
 MODELS = {
